@@ -8,7 +8,7 @@ from ..core import Verdict, close
 from ..refs import units_ref as R
 
 ID = "C03"
-RULE = ("Unit-expression ASTs (prefixed table atoms incl. constants and #system units, integer / n:d exponents, numeric "
+RULE = ("Unit-expression ASTs (prefixed table atoms incl. constants and #system units, integer / n:d exponents with denominators up to 1024, numeric "
         "factors, * / and nested parentheses) rendered without blanks; oracle = dictionary lexer over the published "
         "tables with exact Fraction dimension vectors and float factors (BaseUnits.magnitude, .dimensions, unit ids, "
         "Quantity(1,text) total factor, expression round-trip). Rejection: a valid expression with one atom corrupted "
